@@ -18,6 +18,7 @@ import (
 	"fmt"
 	"go/token"
 	"io"
+	"sort"
 	"strings"
 
 	"github.com/awslabs/ar-go-tools/analysis/config"
@@ -789,6 +790,10 @@ func (v *Visitor) addNext(s *df.AnalyzerState,
 	if len(nextNodeAccessPaths) == 0 {
 		return que
 	}
+	// The access paths are a set: the key of the visitor node is built from them, so they must be in a canonical form
+	// (sorted, without duplicates). Otherwise the number of copies of a path can grow at each traversal of a cycle of
+	// the graph, every key is new and the traversal does not terminate.
+	nextNodeAccessPaths = canonicalAccessPaths(nextNodeAccessPaths)
 
 	// Insert intermediate node for tracing when intermediateNode is not nil
 	// The information (status, accesspaths) can be incorrect and the analysis will still be sound in the sense
@@ -841,6 +846,21 @@ func (v *Visitor) addNext(s *df.AnalyzerState,
 	que = append(que, nextVisitorNode)
 	v.seen[nextVisitorNode.Key()] = true
 	return que
+}
+
+// canonicalAccessPaths returns the sorted slice of the distinct elements of paths. The input slice is not modified (it
+// may be shared with another visitor node).
+func canonicalAccessPaths(paths []string) []string {
+	seen := make(map[string]bool, len(paths))
+	res := make([]string, 0, len(paths))
+	for _, p := range paths {
+		if !seen[p] {
+			seen[p] = true
+			res = append(res, p)
+		}
+	}
+	sort.Strings(res)
+	return res
 }
 
 func (v *Visitor) manageEscapeContexts(s *df.AnalyzerState, cur *df.VisitorNode, nextNode df.GraphNode,
